@@ -1,4 +1,6 @@
 """C12 edge collapse: the structural clauses (neighbour-table agreement, arm agreement, output provenance)."""
+import re
+
 from gsa import cmprules, facts, ir
 from gsa.facts import Unit, rel, AnalysisBroken
 from gsa.report import Check
@@ -215,6 +217,44 @@ def run(tier, replay=None):
                        'lower_bound returns the first entry not less than %s: without comparing %s->first with %s a '
                        'different vertex is taken for the one looked up' % (key, it, key)),
                        key='E2g|%s|%s|lookup-%s' % (f['name'], unit, it))
+
+    # ---- T3c who may subscript the sparse table: operator[] of a flat_map inserts a value-initialised entry
+    WRITERS = ('delay_neighbor', 'remove_neighbor', 'read_edges')
+    n_reads = 0
+    for unit in ('sparse', 'dense'):
+        for f in F.functions:
+            if f.get('unit') != unit or not f['file'].endswith('Flag_complex_edge_collapser.h') or \
+                    f.get('body') is None or f.get('inst') not in (0, 2):
+                continue
+            rows = set()            # locals bound to one row of the table: auto& r = neighbors[x]
+            for x in ir.walk(f['body']):
+                if x.get('k') == 'VarDecl' and x.get('init') is not None:
+                    t = ir.show(x['init']).replace(' ', '')
+                    if re.match(r'^neighbors\[[^\]]+\]$', t):
+                        rows.add(x['n'])
+            bad = None
+            for x in ir.walk(f['body']):
+                if not (x.get('k') == 'ArraySubscriptExpr' or (x.get('k') == 'CXXOperatorCallExpr' and
+                                                              x.get('op') == '[]')):
+                    continue
+                cs = x.get('c') or []
+                base = ir.show(cs[0] if x.get('k') == 'ArraySubscriptExpr' else cs[1]).replace(' ', '')
+                is_row = re.match(r'^neighbors\[[^\]]+\]$', base) or base in rows
+                if not is_row:
+                    continue
+                n_reads += 1
+                if f['name'] not in WRITERS and bad is None:
+                    bad = x
+            if f['name'] in WRITERS:
+                continue
+            if bad is not None or rows or ir.contains(f['body'], lambda y: ir.show(y).startswith('neighbors[')):
+                chk.ob('E2-table-writers', '%s (%s): the sparse neighbour table is only subscripted by its writers'
+                       % (f['name'], unit), '%s:%s' % (H, (bad or f['body']).get('l')), bad is None,
+                       '' if bad is None else '`%s` applies operator[] of the map of neighbours outside %s: a lookup '
+                       'of an absent neighbour inserts it with filtration value 0 (the two vertices become adjacent '
+                       'from the start)' % (ir.show(bad), '/'.join(WRITERS)),
+                       key='E2|%s|%s|table-subscript' % (f['name'], unit))
+    chk.expect_count('E2-table-writers', 'subscripts of a row of the neighbour table', n_reads, 2)
 
     # ---- T4 edge sort
     lam = {}
